@@ -312,6 +312,7 @@ class SimDevice(object):
         self.sync_plan = SyncPlan(self.rng)
         self.refuse = set()       # dests refused with CLSE
         self.silent = False       # device stops talking completely
+        self.stop_after = None    # device stops talking once this many packets were emitted (absolute index)
         self.mute_streams = set() # local ids whose packets are withheld
         self.sessions = 0
         self.all_streams = []     # every DevStream of every session
@@ -493,7 +494,7 @@ class SimDevice(object):
     def _ready(self):
         """list of (queue, stream|None) whose head item may go on the wire now"""
         out = []
-        if self.silent:
+        if self.silent or (self.stop_after is not None and self.emitted >= self.stop_after):
             return out
         now = self.clock.now() if self.clock else 0.0
         if self.conn:
@@ -522,7 +523,7 @@ class SimDevice(object):
 
     def next_ready_time(self):
         t = None
-        if self.silent:
+        if self.silent or (self.stop_after is not None and self.emitted >= self.stop_after):
             return None
         if self.conn and self.conn[0].ready_at is not None:
             t = self.conn[0].ready_at
